@@ -1,6 +1,7 @@
 package xp
 
 import (
+	"strings"
 	"verifharness/internal/core"
 )
 
@@ -47,6 +48,8 @@ var NumTexts = []string{
 	// halves just below 2^52
 	"0.49999999999999994", "0.5000000000000001", "4503599627370497", "4503599627370495", "9007199254740991",
 	"2251799813685247.5", "4503599627370495.5", "1.4999999999999998",
+	// beyond the largest double: the nearest double is infinity
+	"1" + strings.Repeat("0", 400), "179769313486231580000000000000" + strings.Repeat("0", 290),
 }
 
 var StrPool = []string{
